@@ -71,6 +71,14 @@ func c07Diff(l, r map[string]any, reps int) Case {
 				break
 			}
 		}
+		// documents composed of read-only parts (every nested mapping and list a Seal()ed view)
+		for _, pair := range [][2]dom.Container{{anyToContainerSealedKids(l), anyToContainer(r)}, {anyToContainer(l), anyToContainerSealedKids(r)}} {
+			ms := *diff.Diff(pair[0], pair[1])
+			if !reflect.DeepEqual(ms, first) && !(len(ms) == 0 && len(first) == 0) {
+				fail = append(fail, "Diff of the same two documents, one of them composed of sealed parts, returned a different sequence")
+				break
+			}
+		}
 	}); pn != "" {
 		fail = append(fail, "panic in Diff of decoded/cloned/sealed operands: "+pn)
 	}
@@ -107,6 +115,32 @@ func c07Diff(l, r map[string]any, reps int) Case {
 	}
 	return Case{Kind: "diff", Desc: map[string]any{"l": l, "r": r, "mods": modsDesc(first)},
 		Coq: "CDiff " + gNode(l) + " " + gNode(r) + " " + gList(first, gMod), Fail: fail, Nontrivial: len(kinds) >= 2}
+}
+
+// one text decoded twice gives two equal documents, whatever its scalars are (timestamps with odd
+// zone offsets, mappings with non-string keys kept as opaque leaves): their Diff is empty, in both
+// directions and with itself, and never panics
+func c07DecodedTwice(text string) Case {
+	var fail []string
+	pn := guard(func() {
+		L, e1 := dom.Builder().FromReader(strings.NewReader(text), dom.DefaultYamlDecoder)
+		R, e2 := dom.Builder().FromReader(strings.NewReader(text), dom.DefaultYamlDecoder)
+		if e1 != nil || e2 != nil {
+			return
+		}
+		for i, pair := range [][2]dom.Container{{L, R}, {R, L}, {L, L}, {L, L.Clone().(dom.Container)}} {
+			if ms := *diff.Diff(pair[0], pair[1]); len(ms) != 0 {
+				fail = append(fail, fmt.Sprintf("Diff of a text decoded twice is not empty (pair %d): %v", i, modsDesc(ms)))
+			}
+		}
+		if !L.Equals(R) {
+			fail = append(fail, "a text decoded twice gives unequal documents")
+		}
+	})
+	if pn != "" {
+		fail = append(fail, "panic in Diff of a text decoded twice: "+pn)
+	}
+	return Case{Kind: "decoded-twice", Desc: map[string]any{"text": text}, Fail: fail, Nontrivial: true, Key: "dt:" + text}
 }
 
 func c07Overlay(r *rand.Rand, o genOpts) Case {
@@ -196,7 +230,7 @@ func c07Ties(r *rand.Rand, n int) Case {
 func init() {
 	register(&Prop{
 		ID:   "C07",
-		Rule: "pairs (L,R) with path-safe keys (a third over sibling keys where one is a prefix of another continued by '-', a digit, '_' or a letter; a sixth with a list of 11-14 items): R derived from L by 1-4 mutations at any depth (add/remove keys, scalar changes, list changes, kind flips) or independent; each pair diffed 10x (fresh DOMs; Go re-randomises map iteration) and the sequences must be identical; plus tie-heavy pairs (12-40 keys with composite-left / scalar-right, so Delete and Add share a path and an unstable sort would show) and diff.OverlayDocs over 0-3 layers per side; a tenth of the pairs go through files and the pipeline template function domdiff, whose rendered sequence must equal diff.Diff's. Observable: the exact sequence of (Type, Path, Value, OldValue). Non-trivial: diff has >= 2 modification kinds. Distinct by Gallina term.",
+		Rule: "pairs (L,R) with path-safe keys (a third over sibling keys where one is a prefix of another continued by '-', a digit, '_' or a letter; a sixth with a list of 11-14 items): R derived from L by 1-4 mutations at any depth (add/remove keys, scalar changes, list changes, kind flips) or independent; each pair diffed 10x (fresh DOMs; Go re-randomises map iteration) and the sequences must be identical; plus tie-heavy pairs (12-40 keys with composite-left / scalar-right, so Delete and Add share a path and an unstable sort would show) and diff.OverlayDocs over 0-3 layers per side; a tenth of the pairs go through files and the pipeline template function domdiff, whose rendered sequence must equal diff.Diff's. Observable: the exact sequence of (Type, Path, Value, OldValue). Non-trivial: diff has >= 2 modification kinds. Distinct by Gallina term. One operand composed of sealed parts; corpus: one YAML text decoded twice (timestamps with odd zone offsets, non-string-keyed mappings) diffs to nothing.",
 		Corpus: func() []Case {
 			return []Case{
 				c07Diff(map[string]any{"a": 1}, map[string]any{"a": 1}, 3),
@@ -204,6 +238,9 @@ func init() {
 				c07Diff(map[string]any{"a": []any{[]any{1, 2}, []any{3}}}, map[string]any{"a": []any{1}}, 3),
 				c07Diff(map[string]any{"a": map[string]any{}}, map[string]any{}, 3),
 				c07Diff(map[string]any{"a": []any{1}, "b": 1}, map[string]any{"a": []any{2}, "b": nil}, 3),
+				c07DecodedTwice("t: 2001-12-14T21:59:43.10+05:30\nl: [2002-01-01T00:00:00-03:30, x]\nu: 2001-12-14T21:59:43Z\nd: 2002-12-14\n"),
+				c07DecodedTwice("codes: {200: OK, 404: NF}\nflags: {true: on}\nrecs:\n- {1: a}\n- plain\n"),
+				c07DecodedTwice("a: {b: [1, {c: ~}], e: {}}\nf: 1.5\ng: 0x10\nh: '1'\n"),
 			}
 		},
 		Gen: func(r *rand.Rand, tier string, idx int) Case {
